@@ -173,6 +173,14 @@ def _mk_xml(family):
         got = []
         Svc, (A, B, C, B2, U) = _svc(got, droot)
         D = A if droot == 'A' else B           # the class the signatures declare (its original)
+        if what in ('C', 'many') and c.choose([False, True], 'class_tree_served_by_another_application_before'):
+            # the same classes published by an application with another target namespace (there they are foreign)
+            OTHER = 'urn:another.app'
+            app0 = Application([Svc], OTHER, name='Earlier', in_protocol=P(polymorphic=poly), out_protocol=P(polymorphic=poly))
+            req0 = ('<o:get xmlns:o="%s"><o:kind>C</o:kind></o:get>' % OTHER) if what != 'many' else ('<o:get_many xmlns:o="%s"/>' % OTHER)
+            b0 = req0.encode() if family == 'xml' else soap_env(SOAP11_NS if family == 'soap11' else SOAP12_NS, req0)
+            o0, st0, r0 = _call(c, WsgiApplication(app0), b0, 'text/xml')
+            c.check('earlier_application_answers', o0.returned and st0.startswith('200'), detail=(repr(o0), st0, r0[:200]))
         app = Application([Svc], TNS, in_protocol=P(polymorphic=poly), out_protocol=P(polymorphic=poly))
         wsgi = WsgiApplication(app)
         def wrap(b):
